@@ -36,36 +36,42 @@ class Recorder:
     def __enter__(self):
         rec = self
 
+        class Proxy:
+            """a hash / HMAC object of the real library that records (algorithm, [key,] everything absorbed) -> digest
+            whenever a digest is taken — whatever way the message was fed (constructor, update, copy)"""
+
+            def __init__(self_, kind, name, h, key, data):
+                self_._kind, self_._name, self_._h, self_._key, self_._data = kind, name, h, key, bytes(data)
+
+            def update(self_, b):
+                self_._h.update(b)
+                self_._data += bytes(b)
+
+            def copy(self_):
+                return Proxy(self_._kind, self_._name, self_._h.copy(), self_._key, self_._data)
+
+            def digest(self_, *a):
+                d = self_._h.digest(*a)
+                if self_._kind == "hmac":
+                    rec.hmac[(self_._name, self_._key, self_._data)] = d
+                elif a:
+                    rec.xof[(self_._name, self_._data, a[0])] = d
+                else:
+                    rec.hash[(self_._name, self_._data)] = d
+                return d
+
+            def hexdigest(self_, *a):
+                return self_.digest(*a).hex()
+
+            def __getattr__(self_, n):          # digest_size, block_size, name
+                return getattr(self_._h, n)
+
         def new(key, msg=None, digestmod=""):
             h = rec._new(key, msg, digestmod)
-            name = h.name.replace("hmac-", "")
-
-            class W:
-                digest_size = h.digest_size
-
-                def digest(self_):
-                    d = h.digest()
-                    rec.hmac[(name, bytes(key), bytes(msg or b""))] = d
-                    return d
-
-                def hexdigest(self_):
-                    return self_.digest().hex()
-            return W()
+            return Proxy("hmac", h.name.replace("hmac-", ""), h, bytes(key), msg or b"")
 
         def hnew(name, data=b"", **kw):
-            h = rec._hnew(name, data, **kw)
-
-            class W:
-                digest_size = h.digest_size
-
-                def digest(self_, *a):
-                    d = h.digest(*a)
-                    if a:
-                        rec.xof[(name.lower(), bytes(data), a[0])] = d
-                    else:
-                        rec.hash[(name.lower(), bytes(data))] = d
-                    return d
-            return W()
+            return Proxy("hash", name.lower(), rec._hnew(name, data, **kw), None, data)
         hmac_mod.new = new
         hashlib.new = hnew
         return self
@@ -168,7 +174,10 @@ def correspond(ctx):
 
 def oracle(ctx, res):
     """the property on the real code against independent references"""
-    from toolkit.prf.hmac_prf import HmacPRF
+    import toolkit.prf
+
+    def HmacPRF(**kw):          # through the factory, as the schemes obtain it
+        return toolkit.prf.get_prf_implementation(ctx.rng.choice(["HmacPRF", "hmac-prf", "HMAC_PRF"]))(**kw)
     import toolkit.hash as thash
     rng = ctx.rng
 
@@ -189,7 +198,12 @@ def oracle(ctx, res):
                 viol("PRF output length != requested", f"{len(r1)} != {n}", inp)
             if r1 != r2:
                 viol("PRF not deterministic", "", inp)
-            for bad in (dict(key_length=len(key) + 1), dict(message_length=len(msg) + 1)):
+            bads = [dict(key_length=len(key) + 1), dict(message_length=len(msg) + 1)]
+            # a declared length of 0 is a declaration like any other: only the empty key / message meets it
+            bads += [dict(key_length=0)] if key else []
+            bads += [dict(message_length=0)] if msg else []
+            bads += [dict(key_length=max(0, len(key) - 1))] if key else []
+            for bad in bads:
                 try:
                     HmacPRF(output_length=n, hash_func_name=dg, **bad)(key, msg)
                     viol("PRF length contract not enforced", str(bad), inp)
